@@ -8,9 +8,9 @@ namespace Nstd.Life
 
 /-- equal up to the log -/
 def StEq (a b : State) : Prop :=
-  a.next = b.next ∧ a.mem = b.mem ∧ a.blk = b.blk ∧ a.nodes = b.nodes ∧ a.arrs = b.arrs
+  a.per = b.per ∧ a.next = b.next ∧ a.mem = b.mem ∧ a.blk = b.blk ∧ a.nodes = b.nodes ∧ a.arrs = b.arrs
 
-theorem StEq.refl (a : State) : StEq a a := ⟨rfl, rfl, rfl, rfl, rfl⟩
+theorem StEq.refl (a : State) : StEq a a := ⟨rfl, rfl, rfl, rfl, rfl, rfl⟩
 
 def OptEq : Option State → Option State → Prop
   | some a, some b => StEq a b
@@ -18,26 +18,26 @@ def OptEq : Option State → Option State → Prop
   | _, _ => False
 
 theorem StEq.setNode {a b : State} (h : StEq a b) (c : Var) (n : Node) : StEq (a.setNode c n) (b.setNode c n) := by
-  obtain ⟨h1, h2, h3, h4, h5⟩ := h
-  exact ⟨h1, h2, h3, by simp [State.setNode, h4], h5⟩
+  obtain ⟨h0, h1, h2, h3, h4, h5⟩ := h
+  exact ⟨h0, h1, h2, h3, by simp [State.setNode, h4], h5⟩
 
 theorem StEq.setArr {a b : State} (h : StEq a b) (x : Nat) (n : Arr) : StEq (a.setArr x n) (b.setArr x n) := by
-  obtain ⟨h1, h2, h3, h4, h5⟩ := h
-  exact ⟨h1, h2, h3, h4, by simp [State.setArr, h5]⟩
+  obtain ⟨h0, h1, h2, h3, h4, h5⟩ := h
+  exact ⟨h0, h1, h2, h3, h4, by simp [State.setArr, h5]⟩
 
 theorem StEq.alloc {a b : State} (h : StEq a b) (n : Nat) : StEq (a.alloc n) (b.alloc n) := by
-  obtain ⟨h1, h2, h3, h4, h5⟩ := h
-  exact ⟨by simp [State.alloc, h1], h2, by simp [State.alloc, h1, h3], h4, h5⟩
+  obtain ⟨h0, h1, h2, h3, h4, h5⟩ := h
+  exact ⟨h0, by simp [State.alloc, h1], h2, by simp [State.alloc, h1, h3], h4, h5⟩
 
 theorem StEq.ctor {a b : State} (h : StEq a b) (d : Loc) (s1 s2 : Option Loc) (p : Option Nat) :
     StEq (a.ctor d s1 p) (b.ctor d s2 p) := by
-  obtain ⟨h1, h2, h3, h4, h5⟩ := h
-  exact ⟨h1, by simp [State.ctor, h2], h3, h4, h5⟩
+  obtain ⟨h0, h1, h2, h3, h4, h5⟩ := h
+  exact ⟨h0, h1, by simp [State.ctor, h2], h3, h4, h5⟩
 
 theorem StEq.assign {a b : State} (h : StEq a b) (d s1 s2 : Loc) (p : Option Nat) :
     StEq (a.assign d s1 p) (b.assign d s2 p) := by
-  obtain ⟨h1, h2, h3, h4, h5⟩ := h
-  exact ⟨h1, by simp [State.assign, h2], h3, h4, h5⟩
+  obtain ⟨h0, h1, h2, h3, h4, h5⟩ := h
+  exact ⟨h0, h1, by simp [State.assign, h2], h3, h4, h5⟩
 
 theorem StEq.dtorLocs {a b : State} (h : StEq a b) (ls : List Loc) : StEq (a.dtorLocs ls) (b.dtorLocs ls) := by
   induction ls generalizing a b with
@@ -45,8 +45,8 @@ theorem StEq.dtorLocs {a b : State} (h : StEq a b) (ls : List Loc) : StEq (a.dto
   | cons l rest ih =>
     simp only [State.dtorLocs]
     apply ih
-    obtain ⟨h1, h2, h3, h4, h5⟩ := h
-    exact ⟨h1, by simp [State.dtor, h2], h3, h4, h5⟩
+    obtain ⟨h0, h1, h2, h3, h4, h5⟩ := h
+    exact ⟨h0, h1, by simp [State.dtor, h2], h3, h4, h5⟩
 
 /-- two constructor lists that agree on destinations and payloads (the named sources may differ) -/
 def SameCtors : List (Loc × Option Loc × Option Nat) → List (Loc × Option Loc × Option Nat) → Prop
